@@ -49,8 +49,8 @@ func c05Drivers() []concParams {
 		{Name: "readers-share-tiny-cache", Cfg: "tinybloom/bytewise", Pre: []string{"put:a", "put:b", "put:c", "cr", "q"}, Clients: [][]string{{"get:a", "get:c"}, {"get:b", "get:a", "get:c"}}, QB: 2, TB: 3, SQ: 1, ST: 2},
 		// a range compaction (CompactRange gives the write lock back before it starts compacting)
 		// whose version edits are committed while a transaction commits its own
-		{Name: "compactrange-vs-transaction", Cfg: "flushy/bytewise", Pre: []string{"put:a", "put:b", "put:c"}, Clients: [][]string{{"cr"}, {"tr:+a,+b"}, {"get:a", "get:b", "get:c"}}, QB: 2, TB: 3, SQ: 1, ST: 1},
-		{Name: "transaction-vs-compactrange", Cfg: "flushy/bytewise", Pre: []string{"put:a", "put:b", "put:c"}, Clients: [][]string{{"tr:+a,+b", "get:c"}, {"cr"}}, QB: 2, TB: 3, SQ: 1, ST: 1},
+		{Name: "compactrange-vs-transaction", Cfg: "flushy/bytewise", Pre: []string{"put:a", "put:b", "put:c"}, Clients: [][]string{{"cr"}, {"tr:+a,+b"}, {"get:a", "get:b", "get:c"}}, QB: 1, TB: 2, SQ: 1, ST: 1},
+		{Name: "transaction-vs-compactrange", Cfg: "flushy/bytewise", Pre: []string{"put:a", "put:b", "put:c"}, Clients: [][]string{{"tr:+a,+b", "get:c"}, {"cr"}}, QB: 1, TB: 2, SQ: 1, ST: 1},
 		{Name: "bigbatch-vs-reader", Cfg: "bigbatch/bytewise", Pre: []string{"put:a", "put:b"}, Clients: [][]string{{"w:+a,+b,-a,+a"}, {"snapget:a,b"}}, QB: 2, TB: 3},
 	}
 }
